@@ -1,2 +1,97 @@
-// stub created by the lead so that the workspace always loads; replace it with the check
-fn main() {}
+//! C16 — only the queried server's matching reply completes a query.
+//!
+//! (a) UDP: the real `UdpClientStream::send_message` over a scripted `DnsUdpSocket` under the
+//!     paused tokio clock; exhaustive enumeration of arrival schedules (`udp.rs`).
+//! (b) stream: the real `DnsMultiplexer` over a scripted `DnsClientStream`, polled by hand, all
+//!     event interleavings by breadth-first search with state matching (`mux.rs`).
+//!
+//! Both oracles are written from the statement in /verif/properties.jsonl and read raw bytes
+//! with the independent walker `vref::wire`; scripted messages are assembled by hand
+//! (`wirekit.rs`), never by hickory's encoder.
+
+mod mux;
+mod udp;
+mod wirekit;
+
+use vcore::Ctx;
+
+fn main() {
+    let ctx = Ctx::from_args("C16", "model_checking");
+
+    if let Some((_key, case)) = ctx.replay_case() {
+        match case["part"].as_str() {
+            Some("udp") => {
+                let Some(c) = udp::Case::from_json(&case) else { vcore::machinery_exit("bad udp replay case") };
+                let mut rt = vsim::rt();
+                ctx.with_local(|l| udp::run_case(&ctx, &c, &mut rt, l, None, true));
+            }
+            Some("mux") => {
+                let Some((cfg, hist)) = mux::case_from_json(&case) else { vcore::machinery_exit("bad mux replay case") };
+                ctx.with_local(|l| {
+                    if let Err((step, f)) = mux::replay(cfg, &hist, Some(l)) {
+                        mux::report(&ctx, l, cfg, &hist, step, f);
+                    }
+                });
+            }
+            _ => vcore::machinery_exit("replay case has no 'part'"),
+        }
+        ctx.finish(false);
+    }
+
+    ctx.set_rule(
+        "(a) UDP, real UdpClientStream over a scripted socket, virtual time: EVERY schedule = sequence over \
+         {16 datagram kinds: genuine, wrong ip, wrong port, v4-mapped form of the right address, id^1, id^0x8000, other name, \
+         other type, extra second question, one letter case-flipped, 7 garbage bytes from the right source, reply truncated \
+         after 14 bytes from the right source, garbage from a wrong source, recv error, empty question section, QR=0 echo of \
+         the query} u {wait for the next retransmission}; silence until retry / until the 5 s timeout = end of an epoch / of \
+         the sequence. Family 'latest-socket': all sequences of length <= 4 (thorough 5) addressed to the newest transmission's \
+         socket; family 'any-socket': all sequences of length <= 3 (thorough 4) in which datagrams may also be late replies to \
+         the previous two transmissions, each additionally with the datagram arriving in the very instant of the retry timer \
+         (tie family, both select! outcomes accepted). All x case randomisation on/off; genuine present/absent arises from the \
+         alphabet. Datagrams are built from the transmitted bytes (id, 0x20 case). Monitor: Ok(bytes) only for a scripted datagram \
+         from the queried ip:port with the transmitted id whose questions were all asked (byte-identical case under \
+         randomisation), which was among the first 3 datagrams of its socket; <= 3 datagrams received per socket; a consumed \
+         genuine reply among the first 3 completes the query with exactly its bytes; a non-matching datagram that is not the \
+         third must not end the query (case mismatch under randomisation, recv errors and QR=0 echoes may end it: not judged); \
+         no panic. (b) stream, real DnsMultiplexer over a scripted DnsClientStream with hand-fired timeout futures, manual polls: \
+         BFS with state matching over events send / deliver(response with the id of request i, live or already removed) / \
+         byte-identical duplicate / unknown id / undecodable (3 bytes; header with a live id + cut question) / drop receiver i / \
+         timer i fires / stream error / stream end / poll, k <= 2 requests depth 8 (thorough k <= 3, depth 10), \
+         max_active_requests in {32, k-1}, at most qmax unread inbound messages. Reference routing table keyed by the ids seen \
+         on the wire: each response read while a request with its id is pending appears exactly once, in order, on that \
+         request's receiver and nowhere else; ids of pending requests pairwise distinct; unknown/undecodable/late messages \
+         change nothing; after stream error/end every pending request's receiver yields an error and no request stays pending \
+         on a closed connection; no panic. states/transitions/traces_validated_against_impl are sums over both parts: \
+         (b) BFS states and transitions (every transition = one replay of the history on a fresh real multiplexer compared \
+         with the reference) + (a) schedules consumed to their end (distinct environment histories reached) / datagrams consumed \
+         / schedules executed. Non-trivial = (a) schedules in which a non-matching datagram was consumed before the genuine \
+         one, (b) states with >= 2 requests in flight.",
+    );
+    ctx.assume("vref::wire walker (RFC 1035 4.1) decides 'decodable', id and question section of every datagram; scripted messages are hand-assembled");
+    ctx.assume("tokio paused clock: timers fire at their exact virtual deadline; the check verifies that transmissions happen at 0, 333, 666 ms");
+    ctx.assume("a v4-mapped source of the queried IPv4 address, an empty question section and (randomisation off) another letter case satisfy the stated predicate: accepting or skipping them is not judged");
+    ctx.assume("canonical-key argument (b): requests are sent in index order, keys use indices instead of ids; a run in which a new request draws the id of an earlier, no longer pending one is re-executed");
+
+    udp::run(&ctx);
+    mux::run(&ctx);
+
+    // vacuity guards
+    for class in [
+        "udp:ok",
+        "udp:err:attempts-exceeded",
+        "udp:timeout-none",
+        "udp:transmissions=3",
+        "mux:response-delivered",
+        "mux:pending-failed-on-close",
+        "mux:timed-out-request-ended",
+        "mux:send-refused:busy",
+        "mux:ref-drops-late-response",
+        "mux:ref-drops-unknown-id",
+        "mux:ref-drops-undecodable",
+    ] {
+        if ctx.outcome_count(class) == 0 {
+            ctx.machinery_failure(&format!("vacuous run: outcome class '{class}' was never exercised"));
+        }
+    }
+    ctx.finish(true);
+}
